@@ -1,5 +1,6 @@
 SPECIFICATION Spec
 CONSTANTS Threads = {1, 2}
           PairWith = "public"
+CONSTRAINT ReportSplit
 INVARIANTS NoSelfDeadlock NoMutualDeadlock NoLeak NoDataRace Bounded
 CHECK_DEADLOCK FALSE
